@@ -137,6 +137,10 @@ func c11Setup(sc c11Scenario) (*c11World, error) {
 	for i := range sc.Seqs {
 		var t *mast.Mast
 		switch {
+		case sc.Capture == "clone" && i == 0:
+			// the tree that did the inserts and the MakeRoot itself (not a fresh load of its root): whatever a
+			// tree accumulates while it is worked on is there when it is cloned
+			t = w.Trees[0]
 		case sc.Capture == "clone" && i > 0:
 			c, err := cw.trees[0].Clone(ctx)
 			if err != nil {
